@@ -134,3 +134,45 @@ Definition wasm_create := create_share KF.
 Definition wasm_group := group_shares KF.
 Definition agg_run (t : N) (epoch : bytes) (wire : list bytes) : outcome (list (bytes * list (option bytes))) :=
   let! msgs := decode_messages wire in aggregate KF t epoch msgs.
+
+(* ---------- PPOPRF server histories over a family of instances ---------- *)
+From StarV Require Import Ppoprf.
+Inductive sop :=
+| SEval (i : nat) (md : N) (p : bytes) (verifiable : bool) (r : Z)
+| SPunct (i : nat) (md : N)
+| SClone (i : nat)
+| SSync (src dst : nat).     (* export src, import into dst (a fresh instance when dst is new) *)
+Inductive sres :=
+| REval (r : perr + (bytes * option proof))
+| RPunct (r : option perr)
+| RDone
+| RBad.
+Fixpoint set_nth {A} (l : list A) (i : nat) (v : A) : list A :=
+  match l, i with
+  | [], _ => [v]
+  | _ :: t, O => v :: t
+  | h :: t, S i' => h :: set_nth t i' v
+  end.
+Definition srv_step (G : grp) (w : list server) (o : sop) : list server * sres :=
+  match o with
+  | SEval i md p v r => match nth_error w i with
+                        | Some s => (w, REval (server_eval KF G s p md v r))
+                        | None => (w, RBad)
+                        end
+  | SPunct i md => match nth_error w i with
+                   | Some s => let '(s', r) := server_puncture KF s md in (set_nth w i s', RPunct r)
+                   | None => (w, RBad)
+                   end
+  | SClone i => match nth_error w i with Some s => (w ++ [s], RDone) | None => (w, RBad) end
+  | SSync src dst => match nth_error w src with Some s => (set_nth w dst s, RDone) | None => (w, RBad) end
+  end.
+Fixpoint srv_run (G : grp) (w : list server) (ops : list sop) : list server * list sres :=
+  match ops with
+  | [] => (w, [])
+  | o :: t => let '(w1, r) := srv_step G w o in let '(w2, rs) := srv_run G w1 t in (w2, r :: rs)
+  end.
+Definition pp_server_new := server_new KF.
+Definition pp_client_blind := client_blind KF.
+Definition pp_client_finalize := client_finalize KF.
+Definition pp_client_verify := client_verify KF.
+Definition pp_hash_to_group := hash_to_group KF.
